@@ -90,7 +90,16 @@ fn one_history(seed: u64, steps: usize) {
             5 if ctxs.len() == 2 => {
                 // a context whose id is numerically adjacent to an existing one, brought in the way an import does
                 // (registration frame stored as is, usable after reopen), with one frame older than the neighbour's newest
-                let base = ctxs[1];
+                // In every other history the pair sits on a byte carry (…XXFF and …(XX+1)00): the range end of the first must carry over.
+                let mut base = ctxs[1];
+                if seed % 2 == 0 {
+                    base = Scru128Id::from(base.to_u128() | 0xFF);
+                    let mut reg = Frame::builder("xs.context", ZERO_CONTEXT).ttl(TTL::Forever).build();
+                    reg.id = base;
+                    store.insert_frame(&reg).expect("import registration");
+                    model.insert(base, M { id: base, ctx: ZERO_CONTEXT, topic: "xs.context".into(), ttl: TTL::Forever, born_short: false });
+                    ctxs.push(base);
+                }
                 let adj = Scru128Id::from(base.to_u128() + 1);
                 let mut reg = Frame::builder("xs.context", ZERO_CONTEXT).ttl(TTL::Forever).build();
                 reg.id = adj;
@@ -116,8 +125,15 @@ fn one_history(seed: u64, steps: usize) {
                 assert!(store.append(Frame::builder("t", bad_ctx).build()).is_err(), "[{}] C07: append into unregistered context accepted", what);
                 if ctxs.len() > 1 { assert!(store.append(Frame::builder("xs.context", ctxs[1]).build()).is_err(), "[{}] C07: xs.context outside zero", what); }
                 assert!(store.append(Frame::builder("a\0b", ZERO_CONTEXT).build()).is_err(), "[{}] C05: NUL topic accepted", what);
+                // the same through import (insert_frame): a frame with a NUL byte in its topic is rejected WHOLE (C20)
+                let mut bad = Frame::builder("a\0b", ZERO_CONTEXT).build();
+                bad.id = scru128::new();
+                assert!(store.insert_frame(&bad).is_err(), "[{}] C20: import of a NUL topic accepted", what);
+                assert!(store.get(&bad.id).is_none(), "[{}] C20: a rejected import is retrievable by id", what);
                 let after: Vec<Scru128Id> = store.read_sync(None, None, None).map(|f| f.id).collect();
-                assert_eq!(before, after, "[{}] C05/C07: rejected append left a trace", what);
+                assert_eq!(before, after, "[{}] C05/C07/C20: rejected append / import left a trace", what);
+                let in_ctx: Vec<Scru128Id> = store.read_sync(None, None, Some(ZERO_CONTEXT)).map(|f| f.id).collect();
+                assert!(!in_ctx.contains(&bad.id), "[{}] C20: a rejected import is listed in its context", what);
             }
             2 if !model.is_empty() => {
                 // remove (an xs.context frame unregisters its context, C07)
@@ -206,6 +222,15 @@ fn one_history(seed: u64, steps: usize) {
         let mut scan_ctxs = ctxs.clone();
         for m in model.values() { if !scan_ctxs.contains(&m.ctx) { scan_ctxs.push(m.ctx); } }
         check_all(&store, &model, &scan_ctxs, &what);
+        // C20: exporting the stored stream and importing it into an empty store, in ANY order, reproduces it exactly (every 4th history,
+        // at its last step; newest-first is the order that exposes collector / index side effects of an import)
+        if step + 1 == steps && seed % 4 == 1 {
+            let exported: Vec<Frame> = store.read_sync(None, None, None).collect();
+            let imp = Store::new(d.path().join("imported"));
+            for f in exported.iter().rev() { imp.insert_frame(f).unwrap_or_else(|e| panic!("[{}] C20: import of a stored frame failed: {}", what, e)); }
+            rt.block_on(imp.wait_for_gc());
+            check_all(&imp, &model, &scan_ctxs, &format!("{} / C20 imported copy", what));
+        }
     }
 }
 
